@@ -100,6 +100,17 @@ struct SignalRepeater {
 };
 #endif
 
+#ifdef MP_VERIF_HOOKS
+/// Verification hook (off by default; null unless a test installs it):
+/// called at named points of SignalHandler's constructor (1x), SetHandler (2x)
+/// and destructor (3x) so that a test can deliver a signal exactly there.
+extern "C" void (*mp_verif_sig_hook)(int point);
+# define MP_VERIF_SIG_POINT(n) \
+  do { if (mp_verif_sig_hook) mp_verif_sig_hook(n); } while (0)
+#else
+# define MP_VERIF_SIG_POINT(n) do { } while (0)
+#endif
+
 // A SIGINT/SIGTERM handler
 class SignalHandler : public Interrupter {
  private:
